@@ -340,6 +340,8 @@ func zstrClass(s string) string {
 		return "method-not-found"
 	case has("function symbol not found"):
 		return "symbol-not-found"
+	case has("replacementValue has to be a ExportFunc"):
+		return "repl-kind"
 	case has("trampoline func must be a exported func"):
 		return "tramp-kind"
 	case has("bigger than trampoline FuncSize"):
